@@ -52,8 +52,10 @@ def make_ops(rng, cfg, profile, tier):
             ops.append({'op': 'MAP', 'a': []})
         elif r < 0.85:
             ops.append({'op': 'SHUFFLE_SIM_KEPT', 'a': [rng.randrange(1 << 16)]})
-        elif r < 0.86:
+        elif r < 0.855:
             ops.append({'op': 'SPLIT', 'a': [rng.randrange(2, 5)]})
+        elif r < 0.86:
+            ops.append({'op': 'MC_THEN_PANEL', 'a': [rng.randrange(5)]})
         elif r < 0.9:
             ops.append({'op': 'BOOT_EST', 'a': [rng.choice(list(range(1, ni + 3))), rng.randrange(5)]})
         else:
@@ -84,8 +86,11 @@ def nontrivial(spec, res):
     return len(set(cfg['counts'])) >= 2 and len(cfg['ids']) >= 2 and (c.get('op:REORDER', 0) + c.get('removed', 0)) >= 1
 
 
-def draw_value(i, r, salt):
-    """Deterministic user generator: value for individual position i, draw r."""
+def draw_value(i, r, salt, n=0):
+    """Deterministic user generator: value for position i, draw r. The series do NOT depend on the sample size n they
+    were asked for: the library is free to use a table generated for a larger sample (it does so itself after rows of a
+    panel table were removed: the draws are generated before the map of the individuals is rebuilt), which no property
+    forbids as long as every individual keeps one series for all its rows."""
     return ((i * 7 + r * 13 + salt * 5) % 11) / 11.0 - 0.5
 
 
@@ -134,13 +139,14 @@ class Session:
 
         def gen(sample_size, number_of_draws):
             sess.calls.append((sample_size, number_of_draws))
-            return sess.np.array([[draw_value(i, r, 0) for r in range(number_of_draws)] for i in range(sample_size)])
+            return sess.np.array([[draw_value(i, r, 0, sample_size) for r in range(number_of_draws)] for i in range(sample_size)])
 
         def gen2(sample_size, number_of_draws):
             sess.calls.append((sample_size, number_of_draws))
-            return sess.np.array([[draw_value(i, r, 3) for r in range(number_of_draws)] for i in range(sample_size)])
+            return sess.np.array([[draw_value(i, r, 3, sample_size) for r in range(number_of_draws)] for i in range(sample_size)])
 
-        self.db.set_random_number_generators({'DET': (gen, 'deterministic'), 'DET2': (gen2, 'deterministic 2')})
+        self.gens = {'DET': (gen, 'deterministic'), 'DET2': (gen2, 'deterministic 2')}
+        self.db.set_random_number_generators(dict(self.gens))
         if ids != sorted(ids):
             self.ctx.probe('ids not sorted as presented')
         self.stale = False
@@ -205,7 +211,7 @@ class Session:
             else:
                 tot = 0.0
                 for d in range(R):
-                    draws = {'xi': draw_value(pos, d, 0), 'zeta': draw_value(pos, d, 3)}
+                    draws = {'xi': draw_value(pos, d, 0, len(ids)), 'zeta': draw_value(pos, d, 3, len(ids))}
                     prod = 1.0
                     for r in block:
                         prod *= ref.ev(ast, ref.Env(r, betas, draws=draws))
@@ -325,7 +331,11 @@ class Session:
             p.set_value('number_of_draws', self.cfg['R'])
             p.set_value('save_iterations', False)
             self.calls.clear()
-            b = bio.BIOGEME(self.db, {'log_like': e, 'prob': self.build(form, betas)}, parameters=p)
+            # buggify: with or without the audit of the specification (an option of the constructor)
+            skip_ = bool((T + k) % 3 == 0)
+            if skip_:
+                ctx.probe('object built without audit')
+            b = bio.BIOGEME(self.db, {'log_like': e, 'prob': self.build(form, betas)}, parameters=p, skip_audit=skip_)
             ids_now = sorted({r['pid'] for r in self.rows})
             names = b.free_beta_names
             x = [betas[n] for n in names]
@@ -375,6 +385,41 @@ class Session:
                 self._after_eval(kept['form'])
                 ctx.probe('simulation by an object built before the individuals were re-ordered')
                 ctx.log(kind, len(order))
+        elif kind == 'MC_THEN_PANEL':
+            # ONE Database object: a Monte-Carlo formula is evaluated while the table is still cross-sectional (one series
+            # per row), the table is then declared panel, and the panel formula with the same draw variables is evaluated
+            # (one series per individual)
+            if not self.uses_draws():
+                ctx.log(kind, 'skip')
+            else:
+                import biogeme.database as db
+                import biogeme.expressions as ex
+                betas = self.betas_at(a[0])
+                R = self.cfg['R']
+                d = db.Database('pre', self.db.data[['pid', 'x0', 'x1', 'y', 'tag']].sort_values('pid', kind='stable')
+                                .reset_index(drop=True))
+                d.set_random_number_generators(dict(self.gens))
+                bld = ref.Builder({k_: (v_, None, None, 0) for k_, v_ in betas.items()}, share_elementary=True)
+                ast = self.row_ast()
+                got = bld.build(ast)
+                got = ex.MonteCarlo(got).get_value_c(database=d, betas=betas, number_of_draws=R, aggregation=False, prepare_ids=True)
+                by_tag = {r_['tag']: r_ for r_ in self.rows}
+                tags = [float(t_) for t_ in d.data['tag'].to_list()]
+                n_ = len(tags)
+                for pos, (t_, g_) in enumerate(zip(tags, got)):
+                    w_ = sum(ref.ev(ast, ref.Env(by_tag[t_], betas, draws={'xi': draw_value(pos, q_, 0, n_),
+                                                                          'zeta': draw_value(pos, q_, 3, n_)}))
+                             for q_ in range(R)) / R
+                    if not ref.close(float(g_), w_, 1e-10, 1e-13):
+                        ctx.fail('I09.value', f'cross-sectional Monte-Carlo value of row {pos}: {float(g_)!r}, mean over its draws {w_!r}')
+                d.panel('pid')
+                e = self.build('mc', betas)
+                vals = e.get_value_c(database=d, betas=betas, number_of_draws=R, aggregation=False, prepare_ids=True)
+                ids_now = sorted({r_['pid'] for r_ in self.rows})
+                self.compare('mc through get_value_c on a table that served a cross-sectional Monte-Carlo evaluation before '
+                             'being declared panel', ids_now, list(vals), self.reference('mc', betas))
+                ctx.probe('Monte-Carlo evaluation before and after panel() on one Database')
+                ctx.log(kind, a[0])
         elif kind == 'SPLIT':
             # folds of a panel table are made of whole individuals (no group column given: the panel column is used)
             k_ = min(a[0], len({r['pid'] for r in self.rows}))
